@@ -159,6 +159,30 @@ def replay_vectors(args):
                     bad(v, "varint encoded differently from the specification", len=v["len"])
                 if PE.varint_decode(data, 0)[0] != want if hasattr(PE, "varint_decode") else False:
                     out["pq"].append({"kind": kind, "what": "pqspec varint differs"})
+            elif kind == "dictpage":
+                import pandas as pd
+                import fastparquet.writer as WR
+                from fastparquet import parquet_thrift as PT
+                codes = [bits_to_int(b) for b in v["values"]]
+                ncat = {8: 100, 16: 300, 32: 40000}[v["w"]]
+                ser = pd.Series(pd.Categorical.from_codes(codes, categories=pd.RangeIndex(ncat)))
+                out["evals"] += 1
+                if ser.cat.codes.dtype.itemsize * 8 != v["w"]:
+                    out["pq"].append({"kind": kind, "what": "harness: code width %d expected %d" % (ser.cat.codes.dtype.itemsize * 8, v["w"])})
+                else:
+                    try:
+                        got = bytes(WR.encode_dict(ser.cat.codes, PT.SchemaElement(type=PT.Type.INT64)))
+                        h = 1
+                        while data[h] & 0x80:
+                            h += 1
+                        h += 1                      # width byte + run header varint
+                        # the writer does not pad the last group of 8 values (tolerated, a W-VALUES warning of the
+                        # independent reader): header exact, body a prefix of the specification's
+                        if got[:h] != data[:h] or got[h:] != data[h:len(got)] or len(got) - h != v["n"] * v["w"] // 8:
+                            bad(v, "dictionary index page written differently from the specification (header %s, expected %s)"
+                                % (got[:h].hex(), data[:h].hex()), n=v["n"])
+                    except Exception as e:  # noqa
+                        bad(v, "writing the dictionary indices raised", exc=type(e).__name__, n=v["n"])
             elif kind == "levelblock":
                 n = bits_to_int(v["countbits"])
                 out["evals"] += 2
